@@ -149,6 +149,26 @@ pub fn run(ctx: &Ctx, st: &mut Stats) {
         };
         st.sample(|| json!({"site": site, "method": format!("{:?}", METHODS[method]), "dates": "every consecutive triple 1600-01-01..2399-12-31"}));
         check(ctx, st, &c);
+        // order independence: a 400-day window of the same site in DESCENDING order, then ascending again; every
+        // date must give the same result in all three passes
+        {
+            let mut p = Params::new(METHODS[method]);
+            p.round_seconds = RoundSeconds::None;
+            p.extreme_latitude_method = ExtremeLatitudeMethod::None;
+            let w0 = day_lo() + ((i * 7919 + ctx.seed * 104_729) % 290_000) as i32;
+            let mut down: Vec<Option<Res>> = vec![];
+            for k in (0..400).rev() {
+                down.push(call(st, &p, site.loc(), from_ce(w0 + k), None).ok());
+            }
+            down.reverse();
+            for k in 0..400 {
+                let up = call(st, &p, site.loc(), from_ce(w0 + k), None).ok();
+                if up != down[k as usize] {
+                    st.violate("result_depends_on_call_history", &Case { site, method, start: d2s(from_ce(w0 + k)), len: 1 }, json!({"why": "the same date gives different results in a descending and in an ascending sweep", "descending": down[k as usize].as_ref().map(res_json), "ascending": up.as_ref().map(res_json)}));
+                }
+            }
+            st.count("order_independence_windows(400 days down, then up)");
+        }
         st.count(&format!("sweep_sites.lat_band.{}", lat_band(site.lat.0)));
         st.count("sweep_sites");
         st.nontrivial_by_construction((total - 2) as u64);
